@@ -41,9 +41,13 @@ def take(prop=None):
     return out
 
 
+CALL_LOG = []       # one entry per observed resolve() call since the last clear(): what the call returned, as it returned it
+
+
 def clear():
     global RECORDS
     RECORDS = []
+    del CALL_LOG[:]
 
 
 def compatible_ref(a, b, legacy):
@@ -118,6 +122,11 @@ def check(pre, self, result):
         return True
     LAST_PAIR.clear()
     LAST_PAIR[id(self)] = (self, cg, aa)
+    try:
+        CALL_LOG.append(dict(resolver=id(self), fragnames={n: d.get('fragname') for n, d in aa.nodes(data=True)},
+                             edges=aa.number_of_edges(), coarse_names={n: d.get('fragname') for n, d in cg.nodes(data=True)}))
+    except Exception:
+        pass
     try:
         _check(pre, cg, aa)
     except Exception as err:
